@@ -765,6 +765,12 @@ def weave_lifted(src, path, relfile, spec, reader_src):
         cbody_text = cbody
         is_block = True
     name = re.match(r"fn\s+(\w+)", sig).group(1)
+    self_alpha = None
+    if recv == "self" and cparam != "self":
+        # a method `self.with_x(|reader| BODY)`: alpha-rename the closure parameter to `self` (the lifted body is a method too)
+        cbody_text = re.sub(r"\b%s\b" % re.escape(cparam), "self", cbody_text)
+        self_alpha = cparam
+        cparam = "self"
     params, ps, pe = split_params(sig)
     if recv not in params:
         raise RsxError("%s: R5: receiver `%s` is not a parameter of %s" % (relfile, recv, name))
@@ -789,6 +795,8 @@ def weave_lifted(src, path, relfile, spec, reader_src):
     w = Woven()
     w.hash_src = src.text[src.toks[s][1]:src.toks[e][2]] + templ
     w.notes.append("R5 lambda-lifted over %s (closure parameter `%s`)" % (hof, cparam))
+    if self_alpha:
+        w.notes.append("R5: closure parameter `%s` alpha-renamed to `self`" % self_alpha)
     if dropped:
         w.notes.append("R0 dropped: " + ", ".join(sorted(set(dropped))))
 
